@@ -22,7 +22,7 @@ SPEC = {
     "assumptions": ["vlib/prims.py operator semantics (shared by both sides, so an error there cancels out)",
                     "vlib/refeval.py reading of the documented source semantics", "vlib/avm.py control/stack/scratch/frame semantics"],
     "min_evaluations": {"quick": 8000, "thorough": 100000},
-    "must_reach": ["agree_approve", "agree_reject", "agree_fail", "mode_sig", "mode_app", "skeleton_cases", "loops_iterated_2plus", "object_compiled_twice"],
+    "must_reach": ["agree_approve", "agree_reject", "agree_fail", "mode_sig", "mode_app", "skeleton_cases", "first_statement_cases", "loops_iterated_2plus", "object_compiled_twice"],
     "shard_timeout": {"quick": 2400, "thorough": 14400},
 }
 
@@ -122,6 +122,56 @@ def check_recipe(acc, recipe, versions, ctxs, origin, check_san=True):
                     "main_head": str(recipe["main"][:2])[:300]})
 
 
+def first_statement_family(rng):
+    """Routines whose very first statement is a loop, a conditional or an effect over application state - no initialiser in
+    front of it (random recipes always begin with their variable initialisers, so the routine's entry block is never a loop head
+    or a branch there)."""
+    def B(t):
+        return ["bytes", t.encode().hex()]
+    K = B("k")
+    lim = ["bin", "+", ["bin", "%", ["btoi", ["txna", "ApplicationArgs", 0]], ["int", 4]], ["int", rng.choice([0, 0, 1])]]
+    inc = ["gput", K, ["bin", "+", ["gget", K], ["int", 1]]]
+    tag = [0]
+
+    def eff():
+        tag[0] += 1
+        return ["gput", B("e%d" % tag[0]), ["bin", "+", ["gget", K], ["int", 10 * tag[0]]]]
+    c2 = ["bin", "%", ["btoi", ["txna", "ApplicationArgs", 1]], ["int", 2]]
+
+    def loop_body():
+        r = rng.random()
+        if r < .35:
+            return ["seq", [eff(), inc]]                       # ends in a straight-line statement
+        if r < .55:
+            return inc
+        if r < .75:
+            return ["seq", [inc, ["if", c2, eff(), None]]]     # ends in a conditional
+        if r < .9:
+            return ["seq", [inc, ["if", c2, ["break"], None], eff()]]
+        return ["seq", [inc, ["if", c2, ["continue"], None], eff()]]
+
+    def first():
+        r = rng.random()
+        if r < .5:
+            return ["while", ["bin", "<", ["gget", K], lim], loop_body()]
+        if r < .65:
+            return ["if", c2, eff(), eff() if rng.random() < .5 else None]
+        if r < .75:
+            return ["cond", [[c2, eff()], [["int", 1], eff()]]]
+        if r < .85:
+            return ["assert", [["bin", "<=", ["gget", K], ["int", 3]]]]
+        return ["seq", [["while", ["bin", "<", ["gget", K], lim], loop_body()], eff()]]
+    stmts = [first()] + [eff() for _ in range(rng.randrange(0, 3))]
+    if rng.random() < .5:
+        return {"mode": "app", "vars": [], "subs": [], "main": stmts, "final": ["int", 1]}
+    ret = rng.choice(["u", "n"])
+    sub = {"name": "entry", "params": [], "ret": ret, "locals": [], "body": stmts, "retexpr": ["bin", "+", ["gget", K], ["int", 1]] if ret == "u" else None, "rec": False}
+    main = [["callstmt", 0, []]] if ret == "n" else [["gput", B("r"), ["call", 0, []]]]
+    if rng.random() < .5:
+        main = main + [main[0]]  # called twice: the state left by the first call bounds the second
+    return {"mode": "app", "vars": [], "subs": [sub], "main": main, "final": ["int", 1]}
+
+
 def run_shard(shard):
     from ..common import Acc, rng_for
     acc = Acc()
@@ -142,6 +192,18 @@ def run_shard(shard):
         ctxs = [recipes.gen_ctx_desc(rng, mode, hostile=(i == 3)) for i in range(4)]
         check_recipe(acc, recipe, versions_for(rng, recipe, vgen), ctxs, "random")
         acc.counters["random_recipes"] += 1
+    # ---- routines that begin with a loop / conditional / effect
+    for it in range(max(20, shard["n"] // 10)):
+        recipe = first_statement_family(rng)
+        lo = 4 if recipe["subs"] else 2
+        v = rng.choice([x for x in (2, 3, 4, 5, 6, 7, 8, 9, 10) if x >= lo])
+        ctxs = []
+        for j in range(3):
+            d = recipes.gen_ctx_desc(rng, "app")
+            d["args"] = [rng.randrange(0, 8).to_bytes(8, "big").hex() for _ in range(4)]
+            ctxs.append(d)
+        check_recipe(acc, recipe, [v] + ([rng.choice([6, 8, 10])] if rng.random() < .3 else []), ctxs, "first_statement")
+        acc.counters["first_statement_cases"] += 1
     # ---- skeleton enumeration (sharded)
     idx = 0
     for n in range(1, shard["skel_nodes"] + 1):
